@@ -731,6 +731,15 @@ func C15(run *mon.Run) {
 		{"Samples(5,-1)", func() error { return g.Samples(5, -1, func(i, j int) {}) }},
 		{"Samples(3,4)", func() error { return g.Samples(3, 4, func(i, j int) {}) }},
 		{"Samples(-1,-2)", func() error { return g.Samples(-1, -2, func(i, j int) {}) }},
+		// a negative population with an empty sample (nothing would be drawn, the sizes are still inconsistent)
+		{"Samples(-1,0)", func() error { return g.Samples(-1, 0, func(i, j int) {}) }},
+		{"Samples(-7,0)", func() error { return g.Samples(-7, 0, func(i, j int) {}) }},
+		{"Samples(MinInt,0)", func() error { return g.Samples(math.MinInt, 0, func(i, j int) {}) }},
+		{"SubPermutation(-1,0)", func() error { _, e := g.SubPermutation(-1, 0); return e }},
+		{"SubPermutation(-7,0)", func() error { _, e := g.SubPermutation(-7, 0); return e }},
+		{"SubPermutation(MinInt,0)", func() error { _, e := g.SubPermutation(math.MinInt, 0); return e }},
+		{"Shuffle(-7)", func() error { return g.Shuffle(-7, func(i, j int) {}) }},
+		{"Permutation(-7)", func() error { _, e := g.Permutation(-7); return e }},
 		// sizes at the ends of the int range (differences such as n-m wrap there)
 		{"Samples(MinInt,1)", func() error { return g.Samples(math.MinInt, 1, func(i, j int) {}) }},
 		{"Samples(MinInt+5,6)", func() error { return g.Samples(math.MinInt+5, 6, func(i, j int) {}) }},
